@@ -911,7 +911,7 @@ def run(ctx):
     stream_sami(ctx, acc, q(300, 5000))
     stream_dfxp_tree(ctx, acc, q(400, 6000))
     stream_sami_tree(ctx, acc, q(250, 4000))
-    stream_dfxp_text(ctx, acc, q(300, 5000))
+    stream_dfxp_text(ctx, acc, q(300, 3000))
     stream_dfxp_corpus(ctx, acc)
     stream_explicit(ctx, acc)
     stream_frame_rate(ctx, acc)
